@@ -1,9 +1,220 @@
-(* C15 - a recorded demo plays back what was recorded (work in progress: pipeline skeleton) *)
-From LibTw2 Require Import Base.Res Model.Demo.
-From Coq Require Import ZArith List.
+(* C15 - a recorded demo plays back what was recorded.
+   Only the property theorems (about Model/Demo.v and Model/DemoHL.v), each closed by lemmas
+   proved in Proofs/Demo*.v.  The Huffman layer is C07's round-trip theorem
+   (Proofs/HuffmanDecode.roundtrip = C07_roundtrip) on the built-in table, the int layer of
+   messages is C08's (Proofs/VarintProofs.varint_roundtrip = C08_roundtrip). *)
+From LibTw2 Require Import Base.Res Model.Varint Model.Huffman Model.Demo Model.DemoHL
+  Proofs.DemoBase Proofs.DemoChunk Proofs.DemoFile Proofs.DemoHLProofs.
+From LibTw2 Require Model.Snap.
+From Coq Require Import ZArith List Lia Bool.
+Import ListNotations.
 Open Scope Z_scope.
 
-Example C15_nonvacuous : pad4 [1; 2; 3; 4; 5] = [1; 2; 3; 4; 5; 0; 0; 0].
-Proof. reflexivity. Qed.
+(* ---------- raw layer ---------- *)
 
+(* For every header Writer::new is meant for (winput_ok: NUL-free strings below their capacity,
+   a 32-byte digest, a non-negative length) and EVERY chunk sequence (any ticks, key frames,
+   payloads of any content, messages of any length) without a payload above MAX_SNAPSHOT_SIZE:
+   if the writer accepts everything (no panic: ticks increase, the compressed / int-packed sizes
+   fit), then reading the file yields the header fields as given, no header warning, the same
+   chunks in the same order with messages zero-padded to a multiple of four bytes, no warning on
+   any chunk, and a clean end of file. *)
+Theorem C15_raw : forall i cs file,
+  winput_ok i = true -> forallb chunk_ok cs = true -> existsb k15_chunk cs = false ->
+  write_all i cs = Ok file ->
+  exists h, read_all file = Ok (h, [], (map (fun c => (pad4_chunk c, [])) cs, (Ok tt, [])))
+    /\ header_view h = expected_view i.
+Proof. exact raw_roundtrip. Qed.
+
+(* the header alone, in front of anything: Reader::new returns what Writer::new was given,
+   version 6 exactly when a SHA-256 was given, without warnings *)
+Theorem C15_header : forall i hb rest, winput_ok i = true -> writer_new i = Ok hb ->
+  exists h, reader_new (hb ++ rest) = Ok (h, rest, [])
+    /\ header_view h = expected_view i
+    /\ rh_version h = match wi_sha256 i with Some _ => V6 | None => V5 end.
+Proof.
+  intros i hb rest Hi Hw. destruct (header_roundtrip i hb rest Hi Hw) as [h (Hr & Hv & Hws & _ & Hver)].
+  exists h. unfold reader_new. rewrite Hr, Hws. repeat split; assumption.
+Qed.
+
+(* ChunkHeader::write / read for every tick marker (inline delta 0..31, absolute tick anywhere in
+   i32, key frame or not) and every size 0..65535: read back identically in front of any
+   continuation, with no warning (UnknownChunkType for the kind the writer never uses), in both
+   versions the writer produces; the encoding has 1 byte for sizes below 30, 2 up to 255, 3 above;
+   1 byte for an inline tick, 5 for an absolute one *)
+Theorem C15_chunk_header : forall h v rest, chdr_ok h = true -> version_ge v V5 = true ->
+  exists bs, chdr_write h v = Ok bs
+    /\ chdr_read v (bs ++ rest) = (Ok (Some (h, rest)), chdr_warns h)
+    /\ zlen bs = chdr_len h.
+Proof. exact chdr_roundtrip. Qed.
+
+(* which ticks are written inline: exactly the non-key-frame ticks at most 31 above the previous
+   one; all others (first tick, key frames, larger gaps up to the whole i32 range) are absolute *)
+Theorem C15_tick_encoding : forall p keyframe tick, is_i32 p = true -> is_i32 tick = true -> p < tick ->
+  exists bs, write_tick (Some p) keyframe tick = Ok (bs, Some tick)
+    /\ zlen bs = if negb keyframe && (tick - p <=? 31) then 1 else 5.
+Proof.
+  intros p kf tick Hp Ht Hlt. unfold write_tick, tick_marker_new.
+  replace (p <? tick) with true by lia. cbn [negb max_tick_delta].
+  unfold is_i32, i32_min, i32_max in *.
+  destruct (((-2147483648 <=? tick - p) && (tick - p <=? 2147483647))%bool) eqn:Ei.
+  - destruct (negb kf && (tick - p <=? 31)) eqn:Ed.
+    + replace ((tick - p <? 0) || (255 <? tick - p)) with false by lia.
+      destruct kf; [discriminate|]. unfold chdr_write. cbn [version_ge version_num Z.leb negb max_tick_delta].
+      replace (tick - p <=? 31) with true by lia. cbn [negb]. eexists. split; reflexivity.
+    + unfold chdr_write. cbn [version_ge version_num negb]. eexists. split; [reflexivity|]. destruct kf; reflexivity.
+  - replace (negb kf && (tick - p <=? 31)) with false by lia.
+    unfold chdr_write. cbn [version_ge version_num negb]. eexists. split; [reflexivity|]. destruct kf; reflexivity.
+Qed.
+
+(* one chunk behind any writer / reader state in step, in front of any continuation *)
+Theorem C15_chunk : forall v prev c bs prev' rest,
+  version_ge v V5 = true -> chunk_ok c = true -> k15_chunk c = false ->
+  write_chunk prev c = Ok (bs, prev') ->
+  read_chunk v {| ds_rest := bs ++ rest; ds_tick := prev |}
+    = (Ok (Some (pad4_chunk c, {| ds_rest := rest; ds_tick := prev' |})), [])
+  /\ 1 <= zlen bs.
+Proof. exact chunk_roundtrip. Qed.
+
+(* K15 (known finding, DESIGN.md #14): without the size hypothesis C15_raw is false for the code
+   as it is - a message of 65537 zero bytes is accepted by the writer, the reader stops at it with
+   MessageVarIntTooLong (its 16384 four-byte groups are used up); 65536 bytes are fine *)
+Definition k15_header : winput :=
+  {| wi_net_version := [48; 46; 54]; wi_map_name := [100; 109; 49]; wi_sha256 := None; wi_map_crc := 1;
+     wi_kind := Client; wi_length := 0; wi_timestamp := [50; 48]; wi_map := [] |}.
+Theorem C15_K15_refuted :
+  exists file, write_all k15_header [CTick 1 true; CMessage (repeat 0 (Z.to_nat 65537))] = Ok file
+    /\ winput_ok k15_header = true
+    /\ match read_all file with
+       | Ok (_, _, (chunks, (Err EMsgTooLong, _))) => chunks = [(CTick 1 true, [])]
+       | _ => False
+       end.
+Proof.
+  destruct (write_all k15_header [CTick 1 true; CMessage (repeat 0 (Z.to_nat 65537))]) as [file| | |] eqn:E.
+  - exists file. split; [reflexivity|]. split; [reflexivity|].
+    revert E. vm_compute. intros E. injection E as <-. vm_compute. reflexivity.
+  - exfalso. revert E. vm_compute. discriminate.
+  - exfalso. revert E. vm_compute. discriminate.
+  - exfalso. revert E. vm_compute. discriminate.
+Qed.
+
+(* K15H (known finding): Writer::new also accepts header values the format cannot hold - a NUL
+   inside a string comes back truncated with a warning, a negative length makes the file
+   unreadable *)
+Theorem C15_K15H_refuted :
+  (exists file h rest,
+     writer_new {| wi_net_version := [97; 0; 98]; wi_map_name := []; wi_sha256 := None; wi_map_crc := 0;
+                   wi_kind := Server; wi_length := 0; wi_timestamp := []; wi_map := [] |} = Ok file
+     /\ reader_new file = Ok (h, rest, [WeirdNetVersion]) /\ hv_net_version (header_view h) = [97])
+  /\ (exists file,
+     writer_new {| wi_net_version := [97]; wi_map_name := []; wi_sha256 := None; wi_map_crc := 0;
+                   wi_kind := Server; wi_length := -1; wi_timestamp := []; wi_map := [] |} = Ok file
+     /\ reader_new file = Err EAssert).
+Proof.
+  split.
+  - eexists. eexists. eexists. split; [vm_compute; reflexivity|]. split; vm_compute; reflexivity.
+  - eexists. split; vm_compute; reflexivity.
+Qed.
+
+(* ---------- high-level writer ---------- *)
+
+(* a tick that does not strictly increase is refused with TooLowTickNumber: nothing is written and
+   the writer state is unchanged (so the recording stays usable); a negative first tick is one *)
+Theorem C15_refuse_tick : forall sz w t items, t <= hw_last_tick w ->
+  write_snap sz w t items = (w, [], Err HTooLowTickNumber).
+Proof. exact refuse_tick. Qed.
+
+(* ... and only such ticks are refused for their number *)
+Theorem C15_accept_tick : forall sz w t items, hw_last_tick w < t ->
+  snd (write_snap sz w t items) <> Err HTooLowTickNumber.
+Proof. exact accept_tick. Qed.
+
+(* what the refusal protects from (and what an equal tick ran into before the repair of defect
+   #13, when the test was `<`): the raw writer panics on a tick that does not increase *)
+Theorem C15_raw_tick_panics : forall p keyframe t, t <= p ->
+  write_tick (Some p) keyframe t = Panic site_tick_order.
+Proof. exact raw_tick_not_increasing_panics. Qed.
+
+(* Typed layer.  Full statement (not proved here):
+     forall hdr hist, hl_writer_accepts hist ->
+       object_sets (hl_read (hl_write hdr hist)) = object_sets hist.
+   Proved: the demo layers between DemoWriter and DemoReader are transparent.  For every header
+   and EVERY history of write_snap / write_msg calls that run without panic (results Ok or any
+   Err), the reader is given exactly the raw chunks the calls emitted - per accepted write_snap a
+   tick marker carrying the key-frame flag of the 250-tick rule and ONE payload, which is the
+   Snap::write encoding of the snapshot built from the items (key frame) or the Delta::write
+   encoding of Delta::create(last written snapshot, it) (otherwise); per accepted write_msg the
+   message bytes zero-padded; nothing for a refused tick - and decodes them one after the other
+   with the snapshot decoders (hdecode = DemoReader::next_chunk without the file), with no
+   warning from the demo layer.  What is missing for the full statement is the snapshot codec's
+   own round trip along the chain of recycled builders (C09 / C10 prove it for snapshots built
+   from a fresh builder); the harness checks object-set equality on world histories instead. *)
+Theorem C15_typed_partial : forall sz i ops w b rs hb,
+  winput_ok i = true -> forallb hop_ok ops = true -> writer_new i = Ok hb ->
+  hrun sz hwriter_new ops = (w, b, rs) -> no_failure rs = true ->
+  exists h cs,
+    hread_all sz (hb ++ b) = Ok (h, [], hdecode sz Snap.snap_empty (map pad4_chunk cs))
+    /\ header_view h = expected_view i
+    /\ hist_shape sz hwriter_new ops cs.
+Proof. exact hl_transport. Qed.
+
+(* K15W (known finding): an error other than the tick refusal leaves the writer corrupted.  A
+   duplicate key is refused, but the items added before it stay in the builder and come back
+   with the next accepted snapshot *)
+Theorem C15_K15W_refuted :
+  let sz := osize_of [(5, 3)] in
+  let ops := [HSnap 1 [(Snap.Ordinal 5, 1, [1; 2; 3]); (Snap.Ordinal 5, 1, [7; 7; 7])];
+              HSnap 2 [(Snap.Ordinal 5, 2, [4; 5; 6])]] in
+  exists w b hb,
+    hrun sz hwriter_new ops = (w, b, [Err (HSnapBuilder Snap.BDuplicateKey); Ok tt])
+    /\ writer_new k15_header = Ok hb
+    /\ match hread_all sz (hb ++ b) with
+       | Ok (_, _, (chunks, (Ok _, _))) =>
+         map fst chunks = [HCTick 2; HCSnapshot [(Snap.Ordinal 5, 1, [1; 2; 3]); (Snap.Ordinal 5, 2, [4; 5; 6])]]
+       | _ => False
+       end.
+Proof.
+  cbv zeta.
+  destruct (hrun (osize_of [(5, 3)]) hwriter_new
+    [HSnap 1 [(Snap.Ordinal 5, 1, [1; 2; 3]); (Snap.Ordinal 5, 1, [7; 7; 7])]; HSnap 2 [(Snap.Ordinal 5, 2, [4; 5; 6])]])
+    as [[w b] rs] eqn:E.
+  destruct (writer_new k15_header) as [hb| | |] eqn:Eh; try (exfalso; revert Eh; vm_compute; discriminate).
+  exists w, b, hb. revert E Eh. vm_compute. intros E Eh. injection E as <- <- <-. injection Eh as <-.
+  split; [reflexivity|]. split; [reflexivity|]. vm_compute. reflexivity.
+Qed.
+
+(* non-vacuity: a header that meets winput_ok; the chunk bytes the real writer produces for a
+   small recording (key-frame tick 5, a snapshot, inline tick +1, a 5-byte message, absolute tick
+   40 because 34 > 31) and their read-back; a 30-byte-compressed payload takes the one-byte size
+   form, an empty one compresses to two bytes *)
+Example C15_nonvacuous :
+  winput_ok k15_header = true
+  /\ write_chunks None [CTick 5 true; CSnapshot [1; 2; 3]; CTick 6 false; CMessage [1; 2; 3; 4; 5]; CTick 40 false]
+     = Ok [192; 0; 0; 0; 5;  36; 40; 44; 20; 55;  161;  72; 126; 106; 161; 169; 100; 87; 220; 0;  128; 0; 0; 0; 40]
+  /\ read_chunks (repeat 0 30) V5
+       {| ds_rest := [192; 0; 0; 0; 5;  36; 40; 44; 20; 55;  161;  72; 126; 106; 161; 169; 100; 87; 220; 0;  128; 0; 0; 0; 40];
+          ds_tick := None |}
+     = ([(CTick 5 true, []); (CSnapshot [1; 2; 3], []); (CTick 6 false, []);
+         (CMessage [1; 2; 3; 4; 5; 0; 0; 0], []); (CTick 40 false, [])], (Ok tt, []))
+  /\ write_chunk_impl KSnapshot [] = Ok [34; 138; 27]
+  /\ chdr_write (HData KMessage 30) V5 = Ok [94; 30]
+  /\ chdr_write (HData KSnapshotDelta 256) V5 = Ok [127; 0; 1]
+  /\ chdr_read V3 [130; 9] = (Ok (Some (HTick (TDelta 2) false, [9])), [])
+  /\ write_tick (Some 5) false 5 = Panic site_tick_order
+  /\ (let w := fst (fst (write_snap (osize_of []) hwriter_new 5 [])) in
+      hw_last_tick w = 5 /\ write_snap (osize_of []) w 5 [] = (w, [], Err HTooLowTickNumber)).
+Proof. vm_compute. repeat split. Qed.
+
+Print Assumptions C15_raw.
+Print Assumptions C15_header.
+Print Assumptions C15_chunk_header.
+Print Assumptions C15_tick_encoding.
+Print Assumptions C15_chunk.
+Print Assumptions C15_K15_refuted.
+Print Assumptions C15_K15H_refuted.
+Print Assumptions C15_refuse_tick.
+Print Assumptions C15_accept_tick.
+Print Assumptions C15_raw_tick_panics.
+Print Assumptions C15_typed_partial.
+Print Assumptions C15_K15W_refuted.
 Print Assumptions C15_nonvacuous.
